@@ -194,7 +194,7 @@ theorem row_single (id b : Nat) (hlt : id < T.count) (hk : T.opcodeKey id = some
   | none => simp [ho] at h
   | some kinds =>
     simp only [ho, Bool.and_eq_true] at h
-    have a := h.1.1.2
+    have a := h.1.1.1.2
     cases hr : T.reverz1 b with
     | none => simp [hr] at a
     | some id' => simp only [hr, beq_iff_eq] at a; rw [a]
